@@ -44,7 +44,9 @@ V = {
         ensures=[('heap', ['C01', 'C06', 'C11'], 'make_gray_again_rel_heap(old(self)@, final(self)@, gc_ptr)'),
                  ('queues', ['C01', 'C06', 'C11'], 'qpush(old(self)@, final(self)@, gc_ptr)'),
                  ('metrics', ['C09', 'C10'], 'make_gray_again_rel_metrics(old(self)@, final(self)@)'),
-                 ('frame', ['C03', 'C06', 'C08'], 'trace_rel_frame(old(self)@, final(self)@)')],
+                 ('frame', ['C03', 'C06', 'C08'], 'trace_rel_frame(old(self)@, final(self)@)'),
+                 # the conjunction, as the single term the unwind variants' relation is triggered on
+                 ('rel', ['C11'], 'make_gray_again_rel(old(self)@, final(self)@, gc_ptr)')],
         body_serves=['C06', 'C10', 'C11'],
     ),
     'context.backward_barrier': dict(
@@ -144,29 +146,31 @@ V['metrics.finish_cycle'] = dict(requires=[], ensures=[
     body_serves=['C09', 'C10'])
 
 # ------------------------------------------------------------------ the driver
-_DC_INV = '''inv(self@), quiescent(self@),
-                run_until == RunUntil::PayDebt ==> debt_pos(old(self)@.m),
-                old(self)@.hist.len() <= self@.hist.len(), self@.hist.subrange(0, old(self)@.hist.len() as int) =~= old(self)@.hist,
-                zero_work_factors(self@.m.fl) == zero_work_factors(old(self)@.m.fl),
-                (stop == Stop::FullyMarked && old(self)@.phase != Phase::Sweep) ==> self@.phase != Phase::Sweep,
-                (stop_rank(stop) <= 1 && old(self)@.phase == Phase::Sweep) ==> same(old(self)@, self@),
-                stop == Stop::FinishCycle ==> forall|i: int| old(self)@.hist.len() <= i < self@.hist.len() ==> self@.hist[i] != Phase::Sleep,
-                (run_until == RunUntil::PayDebt && zero_work_factors(old(self)@.m.fl) && debt_pos(old(self)@.m))
-                    ==> debt_pos(self@.m) || (self@.phase == Phase::Sweep && self@.sweep is None),'''
-_DC_LOOP_ENS = '''inv(self@), quiescent(self@),
-                old(self)@.hist.len() <= self@.hist.len(), self@.hist.subrange(0, old(self)@.hist.len() as int) =~= old(self)@.hist,
-                stop == Stop::FinishCycle ==> forall|i: int| old(self)@.hist.len() <= i < self@.hist.len() - 1 ==> self@.hist[i] != Phase::Sleep,
-                (stop_rank(stop) <= 1 && old(self)@.phase == Phase::Sweep) ==> same(old(self)@, self@),
-                (stop == Stop::FullyMarked && old(self)@.phase != Phase::Sweep) ==> self@.phase != Phase::Sweep,
-                (run_until == RunUntil::Stop && stop == Stop::FullyMarked && old(self)@.phase != Phase::Sweep) ==> self@.phase == Phase::Mark && !gray_remaining_spec(self@),
-                (run_until == RunUntil::Stop && stop == Stop::AtSweep && old(self)@.phase != Phase::Sweep) ==> self@.phase == Phase::Sweep,
-                (run_until == RunUntil::Stop && stop == Stop::FinishCycle) ==> self@.phase == Phase::Sleep,
-                (run_until == RunUntil::PayDebt && stop == Stop::Full) ==> !debt_pos(self@.m),
-                (run_until == RunUntil::PayDebt && stop == Stop::FinishCycle) ==> !debt_pos(self@.m) || self@.phase == Phase::Sleep,
-                (run_until == RunUntil::PayDebt && stop == Stop::FullyMarked) ==> !debt_pos(self@.m) || self@.phase == Phase::Sweep
-                    || (self@.phase == Phase::Mark && !gray_remaining_spec(self@)),
-                (run_until == RunUntil::PayDebt && stop_rank(stop) >= 2 && zero_work_factors(old(self)@.m.fl) && debt_pos(old(self)@.m))
-                    ==> self@.phase == Phase::Sleep,'''
+# loop contracts are lists of (row-clause-id, text): a failing line is attributed to that clause's row
+_DC_INV = [
+    ('inv', 'inv(self@), quiescent(self@)'),
+    ('asleep_no_progress', 'run_until == RunUntil::PayDebt ==> debt_pos(old(self)@.m)'),
+    ('history', 'old(self)@.hist.len() <= self@.hist.len(), self@.hist.subrange(0, old(self)@.hist.len() as int) =~= old(self)@.hist'),
+    ('stop_the_world', 'zero_work_factors(self@.m.fl) == zero_work_factors(old(self)@.m.fl)'),
+    ('never_leaves_marked', '(stop == Stop::FullyMarked && old(self)@.phase != Phase::Sweep) ==> self@.phase != Phase::Sweep'),
+    ('noop_while_sweeping', '(stop_rank(stop) <= 1 && old(self)@.phase == Phase::Sweep) ==> same(old(self)@, self@)'),
+    ('cycle_stops_at_sleep', 'stop == Stop::FinishCycle ==> forall|i: int| old(self)@.hist.len() <= i < self@.hist.len() ==> self@.hist[i] != Phase::Sleep'),
+    ('stop_the_world', '(run_until == RunUntil::PayDebt && zero_work_factors(old(self)@.m.fl) && debt_pos(old(self)@.m)) ==> debt_pos(self@.m) || (self@.phase == Phase::Sweep && self@.sweep is None)'),
+]
+_DC_LOOP_ENS = [
+    ('inv', 'inv(self@), quiescent(self@)'),
+    ('history', 'old(self)@.hist.len() <= self@.hist.len(), self@.hist.subrange(0, old(self)@.hist.len() as int) =~= old(self)@.hist'),
+    ('cycle_stops_at_sleep', 'stop == Stop::FinishCycle ==> forall|i: int| old(self)@.hist.len() <= i < self@.hist.len() - 1 ==> self@.hist[i] != Phase::Sleep'),
+    ('noop_while_sweeping', '(stop_rank(stop) <= 1 && old(self)@.phase == Phase::Sweep) ==> same(old(self)@, self@)'),
+    ('never_leaves_marked', '(stop == Stop::FullyMarked && old(self)@.phase != Phase::Sweep) ==> self@.phase != Phase::Sweep'),
+    ('finish_marking', '(run_until == RunUntil::Stop && stop == Stop::FullyMarked && old(self)@.phase != Phase::Sweep) ==> self@.phase == Phase::Mark && !gray_remaining_spec(self@)'),
+    ('start_sweeping', '(run_until == RunUntil::Stop && stop == Stop::AtSweep && old(self)@.phase != Phase::Sweep) ==> self@.phase == Phase::Sweep'),
+    ('finish_cycle', '(run_until == RunUntil::Stop && stop == Stop::FinishCycle) ==> self@.phase == Phase::Sleep'),
+    ('collect_debt_pays', '(run_until == RunUntil::PayDebt && stop == Stop::Full) ==> !debt_pos(self@.m)'),
+    ('cycle_debt_pays', '(run_until == RunUntil::PayDebt && stop == Stop::FinishCycle) ==> !debt_pos(self@.m) || self@.phase == Phase::Sleep'),
+    ('mark_debt_pays', '(run_until == RunUntil::PayDebt && stop == Stop::FullyMarked) ==> !debt_pos(self@.m) || self@.phase == Phase::Sweep || (self@.phase == Phase::Mark && !gray_remaining_spec(self@))'),
+    ('stop_the_world', '(run_until == RunUntil::PayDebt && stop_rank(stop) >= 2 && zero_work_factors(old(self)@.m.fl) && debt_pos(old(self)@.m)) ==> self@.phase == Phase::Sleep'),
+]
 V['context.do_collection'] = dict(
     attrs=['#[verifier::exec_allows_no_decreases_clause]'],
     requires=['inv(old(self)@)', 'quiescent(old(self)@)'],
@@ -189,7 +193,7 @@ V['context.do_collection'] = dict(
         # C09 stop-the-world sentence: all work factors zero and positive debt => does not return until Sleeping again
         ('stop_the_world', ['C09'], '(run_until == RunUntil::PayDebt && stop_rank(stop) >= 2 && zero_work_factors(old(self)@.m.fl) && debt_pos(old(self)@.m)) ==> final(self)@.phase == Phase::Sleep'),
     ],
-    loops={0: '            invariant_except_break\n                ' + _DC_INV + '\n            ensures\n                ' + _DC_LOOP_ENS},
+    loops={0: dict(invariant_except_break=_DC_INV, ensures=_DC_LOOP_ENS)},
     body_serves=['C08', 'C09', 'C01'],
 )
 
@@ -203,14 +207,22 @@ V['context.drop'] = dict(
         ('each_freed_and_destructed', ['C04', 'C11'], 'forall|i: int| 0 <= i < l.len() ==> final(self)@.freed.contains(#[trigger] l[i]) && final(self)@.dropped.contains(l[i])'),
         ('only_own_objects', ['C04', 'C20'], 'forall|p: GcPtr| final(self)@.freed.contains(p) ==> old(self)@.freed.contains(p) || l.contains(p)'),
     ],
-    loops={0: '''        invariant
-            wf_from(self@.objs, self@.dropped, l, pos(l, cursor)),
-            0 <= pos(l, cursor) <= l.len(),
-            cursor == at(l, pos(l, cursor)),
-            self@.m.total == l.len() - pos(l, cursor),
-            forall|i: int| 0 <= i < pos(l, cursor) ==> self@.freed.contains(#[trigger] l[i]) && self@.dropped.contains(l[i]),
-            forall|p: GcPtr| self@.freed.contains(p) ==> old(self)@.freed.contains(p) || l.contains(p),
-        ensures cursor is None
-        decreases l.len() - pos(l, cursor)'''},
+    loops={0: dict(
+        invariant=[
+            ('all_released', 'wf_from(self@.objs, self@.dropped, l, pos(l, cursor)), 0 <= pos(l, cursor) <= l.len(), cursor == at(l, pos(l, cursor))'),
+            ('count_zero', 'self@.m.total == l.len() - pos(l, cursor)'),
+            ('each_freed_and_destructed', 'forall|i: int| 0 <= i < pos(l, cursor) ==> self@.freed.contains(#[trigger] l[i]) && self@.dropped.contains(l[i])'),
+            ('only_own_objects', 'forall|p: GcPtr| self@.freed.contains(p) ==> old(self)@.freed.contains(p) || l.contains(p)'),
+        ],
+        ensures=[('all_released', 'cursor is None')],
+        decreases='l.len() - pos(l, cursor)')},
     body_serves=['C04', 'C10'],
 )
+
+# ------------------------------------------------------------------ unwind variants of mark_one (rule X-unwind, C11)
+V['context.mark_one#unwind'] = {
+    'trace_value': dict(serves=['C11', 'C10'], requires=['mark_one_pre(old(self)@)', '!old(self)@.unwinding'],
+                        ensures='final(self)@.unwinding ==> mark_one_unwind_rel(old(self)@, S { unwinding: false, ..final(self)@ })'),
+    'trace_root': dict(serves=['C11'], requires=['mark_one_pre(old(self)@)', '!old(self)@.unwinding'],
+                       ensures='final(self)@.unwinding ==> mark_one_unwind_rel(old(self)@, S { unwinding: false, ..final(self)@ })'),
+}
